@@ -173,6 +173,17 @@ PROPS = {
         design_ref="DESIGN.md §5 C12",
         technique="Lean 4 proof (interleaving induction) + kernel-decided reachability over extracted call graph; TSan correspondence",
     ),
+    "C14": dict(
+        title="Numeric layout conversions are exact or correctly rounded on their whole domain",
+        level_text="Lean 4 theorems on the bit-exact soft-float model (verified pack/decode theory: RNE, exactness, magic-constant additions, rint, quotient by 2^j) for every conversion and variant, all m; one genuine defect at x = +-pred(d/2) of the wide double->int64 variant is a recorded finding (D7); bit-exact correspondence at and around every domain boundary",
+        design_ref="DESIGN.md §5 C14",
+        module="SpqProofs.Properties.C14",
+        variants={"plain": None},
+        streams=dict(quick=[("f6_conv", "plain")], thorough=[("f6_conv", "plain")]),
+        proved="on the bit-exact soft-float model, for every m (through the loop / shuffle structure of each kernel), every divisor 2^j with finite table constants and every input pattern in the stated magnitude domain: from_znx64 exact (cast and add-2^51/or/sub trick, |x|<2^50); to_znx64 ref (|x/d|<2^63) and bnd50 (|x/d|<2^50) within 1/2 of x/d; cplx_from_znx32 / cplx_from_tnx32 exact for every int32 (ref and AVX2 shuffle kernel); cplx_to_tnx32 ref and AVX2 = round(x*2^32/d) mod 2^32 for |x/d|<2^18; reim_to_tnx ref = avx bit-for-bit and x/d - integer within 2^(L-51), result in [-1/2,1/2), for every log2overhead L<=48 with the table recomputed by the model of the constructor; a kernel-checked counterexample showing the wide variant bnd63 misses the 1/2 bound at x = pred(d/2)",
+        not_proved="to_znx64 bnd63 beyond the counterexample (its mantissa-shift extraction is tied by the stream only); reim_to_tnx_basic_ref (rint form) is tied by the stream only; non-finite inputs and log2overhead 49..52 are outside the property",
+        assumptions=COMMON_ASSUME + ["divisor/2., 1./divisor and 2^32/divisor are compiled as IEEE divisions or exact multiplications (bit-identical for powers of two)"],
+    ),
     "C15": dict(
         title="Results depend only on arguments: no hidden state, history or alignment",
         module="SpqProofs.Properties.C15",
